@@ -87,6 +87,8 @@ var errInjected = errors.New("injected RPC failure")
 
 const pausedSelector = "0x5c975abb"
 
+var numSetsSelector string // set in chain.go init
+
 func classify(c fakeeth.Call) string {
 	switch c.Method {
 	case "eth_subscribe":
@@ -109,6 +111,11 @@ func classify(c fakeeth.Call) string {
 		if strings.HasPrefix(c.Detail, "latest ") && strings.Contains(c.Detail, pausedSelector) {
 			return "poll"
 		}
+		// getInitialPubKeys begins with getNumKeyperSets, a call the watch loops never make: it
+		// keeps the start-up path apart from a KeyperSetAdded notification processed meanwhile
+		if strings.Contains(c.Detail, numSetsSelector) {
+			return "fetchN"
+		}
 		return "fetch"
 	case "eth_getCode":
 		return "fetch"
@@ -125,7 +132,7 @@ func (g *gate) enter(c fakeeth.Call) error {
 	}
 	g.mu.Lock()
 	defer g.mu.Unlock()
-	if cls == "fetch" {
+	if cls == "fetch" || cls == "fetchN" {
 		g.fetchAt = append(g.fetchAt, strings.Fields(c.Detail)[0])
 	}
 	counted := false
@@ -439,8 +446,11 @@ func syncerOf(p string) string {
 }
 
 func gateClass(p string) string {
-	if p == "ksF" || p == "ekF" {
+	switch p {
+	case "ksF":
 		return "fetch"
+	case "ekF":
+		return "fetchN"
 	}
 	return p
 }
@@ -841,8 +851,9 @@ func (w *World) actStart(cw *clientW, fault bool) StepRes {
 		switch {
 		case fault:
 			lf.g.faults[cls] = 1
-		case cls == "fetch":
-			lf.g.permits[cls] = -1
+		case cls == "fetch" || cls == "fetchN":
+			lf.g.permits["fetch"] = -1
+			lf.g.permits["fetchN"] = -1
 		case cls == "ssS":
 			lf.g.permits[cls] = 2
 		default:
@@ -861,8 +872,9 @@ func (w *World) actStart(cw *clientW, fault bool) StepRes {
 	}, watchdog)
 	lf.g.set(func() {
 		lf.g.permits["fetch"] = 0
+		lf.g.permits["fetchN"] = 0
 		lf.g.faults[cls] = 0
-		if cls == "fetch" && len(lf.g.fetchAt) > 0 && strings.HasPrefix(lf.g.fetchAt[0], "0x") {
+		if (cls == "fetch" || cls == "fetchN") && len(lf.g.fetchAt) > 0 && strings.HasPrefix(lf.g.fetchAt[0], "0x") {
 			if n, ok := new(big.Int).SetString(lf.g.fetchAt[0][2:], 16); ok && n.IsInt64() {
 				lf.obsS = int(n.Int64())
 			}
